@@ -1,3 +1,381 @@
-/-! # C06 — property theorems (stub: nothing stated yet) -/
+import SR.Proofs.ActorActions
+/-!
+# C06 — an actor-model transition is exactly one atomic handler step of one actor
+
+Property theorems only. Model: `SR/Actor/Sys.lean` (`init`, `actions`, `step` = transcription of
+`ActorModel::{init_states, actions, next_state, process_commands}`), specification side: `SR/Actor/Spec.lean`.
+Every theorem quantifies over ALL actor systems `sys` (any handler functions, any alphabets encoded in `Nat`,
+any number of actors, each network kind, lossy or not, any history hooks) and all well-formed states
+(`St.WF`: one entry per actor in every per-actor vector — an invariant of reachable states, `C06_reach_wf`).
+
+`HandlerStep sys st a st' i ev s ns cmds` is the context shared by the clauses: from the well-formed state
+`st` the action `a`, which hands event `ev` to actor `i` in local state `s`, is a transition to `st'`, and
+the handler answered `ns` (`some` = `Cow::Owned`, `none` = left borrowed) and the commands `cmds`.
+-/
 namespace SR.C06
+open SR SR.Actor
+
+variable {σ η : Type}
+
+structure HandlerStep (sys : ActorSys σ η) (st : St σ η) (a : Action) (st' : St σ η)
+    (i : Nat) (ev : Event) (s : σ) (ns : Option σ) (cmds : List Cmd) : Prop where
+  wf : st.WF sys
+  trans : step sys st a = .next st'
+  event : eventOf a = some (i, ev)
+  actor : st.actors[i]? = some s
+  result : handler sys i s ev = .ok ns cmds
+
+/-- On well-formed states `next_state` IS the specified step (`specStep`: the successor described component
+by component), including where it ignores the action and where it panics. -/
+theorem C06_step_spec (sys : ActorSys σ η) (st : St σ η) (a : Action) (hwf : st.WF sys) :
+    step sys st a = specStep sys st a := step_eq_specStep sys st a hwf
+
+/-- every transition of a handler action has the specified successor -/
+theorem C06_spec_next {sys : ActorSys σ η} {st st' : St σ η} {a : Action} {i : Nat} {ev : Event} {s : σ}
+    {ns : Option σ} {cmds : List Cmd} (c : HandlerStep sys st a st' i ev s ns cmds) :
+    specNext sys st a i s ns cmds = some st' ∧ ignoredBy sys ns cmds a = false := by
+  have h := c.trans
+  rw [step_eq_specStep sys st a c.wf] at h
+  have hh : specHandlerStep sys st a i ev = .next st' := by
+    have hev := c.event
+    cases a <;> simp only [eventOf, Option.some.injEq, Prod.mk.injEq, reduceCtorEq] at hev
+    all_goals (obtain ⟨rfl, rfl⟩ := hev; simpa [specStep, eventOf] using h)
+  obtain ⟨s', ns', cmds', h1, _, h3, h4, h5⟩ := specHandlerStep_next hh
+  rw [c.actor] at h1; cases h1
+  rw [c.result] at h3; cases h3
+  exact ⟨h5, h4⟩
+
+/-- **One handler, one actor, atomically.** Every transition is a Drop (no handler; only the network changes),
+a Crash (no handler), or exactly one invocation of the handler of one actor `i` — on the message, the timer
+or the random choice the action names, in `i`'s current local state — and then the only actor state that
+changes is `i`'s, replaced by the handler's new state (kept if the handler left it borrowed). -/
+theorem C06_one_handler (sys : ActorSys σ η) (st st' : St σ η) (a : Action) (hwf : st.WF sys)
+    (h : step sys st a = .next st') :
+    (∃ e, a = .drop e ∧ st.net.onDrop e = some st'.net ∧ st' = { st with net := st'.net }) ∨
+    (∃ i, a = .crash i) ∨
+    (∃ i key ev s ns cmds, a = actionOf i key ev ∧ HandlerStep sys st a st' i ev s ns cmds ∧
+        st'.actors = st.actors.set i (ns.getD s)) := by
+  have h' := h
+  rw [step_eq_specStep sys st a hwf] at h'
+  have key : ∀ (i k : Nat) (ev : Event), a = actionOf i k ev → eventOf a = some (i, ev) →
+      specHandlerStep sys st a i ev = .next st' →
+      ∃ i key ev s ns cmds, a = actionOf i key ev ∧ HandlerStep sys st a st' i ev s ns cmds ∧
+        st'.actors = st.actors.set i (ns.getD s) := by
+    intro i k ev ha hev hh
+    obtain ⟨s, ns, cmds, h1, _, h3, _, h5⟩ := specHandlerStep_next hh
+    refine ⟨i, k, ev, s, ns, cmds, ha, ⟨hwf, h, hev, h1, h3⟩, ?_⟩
+    unfold specNext at h5
+    split at h5
+    · cases h5; rfl
+    · cases h5
+  cases a with
+  | drop e =>
+    left
+    simp only [specStep] at h'
+    cases hd : st.net.onDrop e with
+    | none => simp [hd] at h'
+    | some net => simp [hd] at h'; subst h'; exact ⟨e, rfl, hd, rfl⟩
+  | crash i => right; left; exact ⟨i, rfl⟩
+  | deliver e =>
+    right; right
+    exact key e.dst 0 (.msg e.src e.msg) rfl rfl (by simpa [specStep, eventOf] using h')
+  | timeout i t =>
+    right; right
+    exact key i 0 (.timeout t) rfl rfl (by simpa [specStep, eventOf] using h')
+  | selectRandom i k r =>
+    right; right
+    exact key i k (.random r) rfl rfl (by simpa [specStep, eventOf] using h')
+
+/-- **Nothing else changes.** The timers, pending choices and local states of every other actor, and all
+crash flags, are untouched. -/
+theorem C06_frame {sys : ActorSys σ η} {st st' : St σ η} {a : Action} {i : Nat} {ev : Event} {s : σ}
+    {ns : Option σ} {cmds : List Cmd} (c : HandlerStep sys st a st' i ev s ns cmds) :
+    st'.crashed = st.crashed ∧
+    ∀ j, j ≠ i → st'.timers[j]? = st.timers[j]? ∧ st'.random[j]? = st.random[j]? ∧ st'.actors[j]? = st.actors[j]? := by
+  obtain ⟨h, _⟩ := C06_spec_next c
+  unfold specNext at h
+  split at h
+  · cases h
+    refine ⟨rfl, fun j hj => ?_⟩
+    have : i ≠ j := fun e => hj e.symm
+    simp [List.getElem?_set_ne this]
+  · cases h
+
+/-- **Sends enter the network in emission order**: the network after the step is the network after the
+action consumed its envelope (delivered: per kind; timeout / random: unchanged) with the handler's sends
+applied one by one in the order of the command list. -/
+theorem C06_sends_in_order {sys : ActorSys σ η} {st st' : St σ η} {a : Action} {i : Nat} {ev : Event} {s : σ}
+    {ns : Option σ} {cmds : List Cmd} (c : HandlerStep sys st a st' i ev s ns cmds) :
+    ∃ net, consume st.net a = some net ∧ st'.net = sendAll net (sendsOf i cmds) := by
+  obtain ⟨h, _⟩ := C06_spec_next c
+  unfold specNext at h
+  split at h
+  · rename_i net ts m hc _ _
+    cases h
+    exact ⟨net, hc, rfl⟩
+  · cases h
+
+/-- corollary for ordered networks: every flow out of `i` is its queue after the consumption followed by the
+messages the handler sent to that destination, in emission order; all other flows are as after the consumption -/
+theorem C06_sends_fifo {sys : ActorSys σ η} {st st' : St σ η} {a : Action} {i : Nat} {ev : Event} {s : σ}
+    {ns : Option σ} {cmds : List Cmd} (c : HandlerStep sys st a st' i ev s ns cmds)
+    (ho : st.net.isOrdered = true) :
+    ∃ net, consume st.net a = some net ∧ ∀ f : Nat × Nat,
+      st'.net.queue f = net.queue f ++ ((sendsOf i cmds).filter (fun e => flowOf e = f)).map (·.msg) := by
+  obtain ⟨net, hc, hn⟩ := C06_sends_in_order c
+  refine ⟨net, hc, fun f => ?_⟩
+  rw [hn]
+  have hk : net.isOrdered = true := by
+    cases a with
+    | deliver e => exact (sameKind_isOrdered (sameKind_apply (op := .deliver e) hc)).symm.trans ho
+    | drop e => exact (sameKind_isOrdered (sameKind_apply (op := .drop e) hc)).symm.trans ho
+    | timeout _ _ => simp [consume] at hc; subst hc; exact ho
+    | crash _ => simp [consume] at hc; subst hc; exact ho
+    | selectRandom _ _ _ => simp [consume] at hc; subst hc; exact ho
+  clear hn hc
+  generalize sendsOf i cmds = es
+  induction es generalizing net with
+  | nil => simp [sendAll]
+  | cons e es ih =>
+    cases net with
+    | dup _ _ => simp [Net.isOrdered] at hk
+    | nondup _ => simp [Net.isOrdered] at hk
+    | ord flows =>
+      simp only [sendAll, List.foldl_cons] at ih ⊢
+      rw [ih _ (by simp [Net.send, Net.isOrdered]), queue_send]
+      by_cases hf : flowOf e = f
+      · simp [List.filter_cons, hf]
+      · have : ¬ f = flowOf e := fun x => hf x.symm
+        simp [List.filter_cons, hf, this]
+
+/-- **Timers**: the timer set of `i` is the fold of the handler's timer commands (set / cancel, in order) over
+`i`'s timers without the fired one. -/
+theorem C06_timers {sys : ActorSys σ η} {st st' : St σ η} {a : Action} {i : Nat} {ev : Event} {s : σ}
+    {ns : Option σ} {cmds : List Cmd} (c : HandlerStep sys st a st' i ev s ns cmds) :
+    ∃ ts, st.timers[i]? = some ts ∧ st'.timers[i]? = some (cmds.foldl applyTimerCmd (firedTimers ts a)) := by
+  obtain ⟨h, _⟩ := C06_spec_next c
+  unfold specNext at h
+  split at h
+  · rename_i net ts m _ ht _
+    cases h
+    exact ⟨ts, ht, by simp [List.getElem?_set_self (lt_length_of_getElem? ht)]⟩
+  · cases h
+
+/-- **Random choices**: the pending choices of `i` are the fold of the handler's choice commands (open /
+overwrite a key, remove it when the vector is empty) over `i`'s pending choices without the selected key. -/
+theorem C06_random {sys : ActorSys σ η} {st st' : St σ η} {a : Action} {i : Nat} {ev : Event} {s : σ}
+    {ns : Option σ} {cmds : List Cmd} (c : HandlerStep sys st a st' i ev s ns cmds) :
+    ∃ m, st.random[i]? = some m ∧ st'.random[i]? = some (cmds.foldl applyRandomCmd (selectedRandom m a)) := by
+  obtain ⟨h, _⟩ := C06_spec_next c
+  unfold specNext at h
+  split at h
+  · rename_i net ts m _ _ hr
+    cases h
+    exact ⟨m, hr, by simp [List.getElem?_set_self (lt_length_of_getElem? hr)]⟩
+  · cases h
+
+/-- declarative reading of the timer fold: after the step a timer is set iff the last command about it sets
+it, or no command mentions it and it was set before and did not fire -/
+theorem C06_timers_decl (ts : List Nat) (cmds : List Cmd) (t : Nat) :
+    t ∈ cmds.foldl applyTimerCmd ts ↔
+      match (cmds.filter (fun c => c = .setTimer t || c = .cancelTimer t)).getLast? with
+      | some (.setTimer _) => True
+      | some _ => False
+      | none => t ∈ ts := by
+  induction cmds generalizing ts with
+  | nil => simp
+  | cons c cs ih =>
+    rw [List.foldl_cons, ih]
+    rw [List.filter_cons]
+    by_cases hc : (decide (c = .setTimer t) || decide (c = .cancelTimer t)) = true
+    · rw [if_pos hc, List.getLast?_cons]
+      cases hl : (cs.filter (fun c => decide (c = .setTimer t) || decide (c = .cancelTimer t))).getLast? with
+      | some x => cases x <;> simp
+      | none =>
+        simp only [Option.getD_none]
+        simp only [Bool.or_eq_true, decide_eq_true_eq] at hc
+        rcases hc with rfl | rfl
+        · simp [applyTimerCmd, mem_sins]
+        · simp [applyTimerCmd, mem_srem]
+    · rw [if_neg hc]
+      simp only [Bool.or_eq_true, decide_eq_true_eq, not_or] at hc
+      cases hl : (cs.filter (fun c => decide (c = .setTimer t) || decide (c = .cancelTimer t))).getLast? with
+      | some x => cases x <;> simp
+      | none =>
+        simp only
+        cases c with
+        | send _ _ => simp [applyTimerCmd]
+        | chooseRandom _ _ => simp [applyTimerCmd]
+        | setTimer t' =>
+          have : t ≠ t' := fun e => hc.1 (by rw [e])
+          simp [applyTimerCmd, mem_sins, this]
+        | cancelTimer t' =>
+          have : t ≠ t' := fun e => hc.2 (by rw [e])
+          simp [applyTimerCmd, mem_srem, this]
+
+/-- **History**: the hook for received messages sees the delivered envelope first, then the hook for sent
+messages sees each sent envelope in emission order (a hook answering `None` leaves the history as it is). -/
+theorem C06_history {sys : ActorSys σ η} {st st' : St σ η} {a : Action} {i : Nat} {ev : Event} {s : σ}
+    {ns : Option σ} {cmds : List Cmd} (c : HandlerStep sys st a st' i ev s ns cmds) :
+    st'.hist = recordOuts sys (recordIn? sys st.hist a) (sendsOf i cmds) := by
+  obtain ⟨h, _⟩ := C06_spec_next c
+  unfold specNext at h
+  split at h
+  · cases h; rfl
+  · cases h
+
+/-- **A delivery that changes nothing yields no transition on unordered networks.** -/
+theorem C06_noop (sys : ActorSys σ η) (st : St σ η) (e : Env) (s : σ) (cmds : List Cmd) (hwf : st.WF sys)
+    (hs : st.actors[e.dst]? = some s) (hr : (sys.actor e.dst).msg e.dst s e.src e.msg = .ok none cmds)
+    (hc : cmds = []) (hu : sys.initNet.isOrdered = false) :
+    step sys st (.deliver e) = .ignored := by
+  rw [step_eq_specStep sys st _ hwf]
+  subst hc
+  simp only [specStep, eventOf, specHandlerStep, hs, handler, hr, ignoredBy, isNoOp, hu]
+  split <;> simp
+
+/-- on an ordered network a no-op delivery is still a step: it consumes the head of its flow (and is recorded) -/
+theorem C06_noop_ordered (sys : ActorSys σ η) (st : St σ η) (e : Env) (s : σ) (net : Net) (hwf : st.WF sys)
+    (hs : st.actors[e.dst]? = some s) (hup : st.crashed[e.dst]? = some false)
+    (hr : (sys.actor e.dst).msg e.dst s e.src e.msg = .ok none [])
+    (ho : sys.initNet.isOrdered = true) (hd : st.net.onDeliver e = some net) :
+    step sys st (.deliver e) = .next { st with net := net, hist := (sys.recordIn st.hist e).getD st.hist } := by
+  obtain ⟨hA, hT, hR, hC⟩ := hwf
+  have hlt := lt_length_of_getElem? hs
+  obtain ⟨ts, h1⟩ := getElem?_of_lt (l := st.timers) (i := e.dst) (by omega)
+  obtain ⟨m, h2⟩ := getElem?_of_lt (l := st.random) (i := e.dst) (by omega)
+  simp only [step, hs, hup, hr, isNoOp, ho, hd, processCommands, ofOption, setActor]
+  simp
+
+/-- **A timeout whose handler only re-arms the same timer and keeps the state yields no transition.** -/
+theorem C06_timer_noop (sys : ActorSys σ η) (st : St σ η) (i t : Nat) (s : σ) (hwf : st.WF sys)
+    (hs : st.actors[i]? = some s) (hr : (sys.actor i).timeout i s t = .ok none [.setTimer t]) :
+    step sys st (.timeout i t) = .ignored := by
+  rw [step_eq_specStep sys st _ hwf]
+  simp [specStep, eventOf, specHandlerStep, hs, handler, hr, ignoredBy, isNoOpWithTimer, isDeliver]
+
+/-- **Initial state**: every actor is started once, in index order; its commands are applied as above. -/
+theorem C06_init (sys : ActorSys σ η) : init sys = some (specInit sys) := init_eq_specInit sys
+
+/-- **Enabled actions** are exactly: delivery of a deliverable envelope to an existing actor; drop of a
+deliverable envelope if the network is lossy; timeout of a timer that is set; crash of an actor that is up
+while the budget lasts; selection of one of the pending choices. (Network of the configured kind, canonical:
+invariant of reachable states, `C06_reach_wf`.) -/
+theorem C06_actions_complete (sys : ActorSys σ η) (st : St σ η) (hn : st.NetOk sys) (a : Action) :
+    a ∈ actions sys st ↔ enabledSpec sys st a := mem_actions_iff sys st hn a
+
+/-- every reachable state of the actor model is well-formed and its network is canonical and of the
+configured kind, so all clauses above apply at every reachable state -/
+theorem C06_reach_wf (sys : ActorSys σ η) (inB : St σ η → Bool) (hc : sys.initNet.Canon) (st : St σ η)
+    (h : (sys.toSys inB).Reach st) : st.WF sys ∧ st.NetOk sys := reach_inv sys inB hc h
+
+/-- an enabled action never panics at a reachable state, provided the handlers do not -/
+theorem C06_enabled_no_panic (sys : ActorSys σ η) (st : St σ η) (a : Action) (hwf : st.WF sys) (hn : st.NetOk sys)
+    (hh : ∀ i s ev, handler sys i s ev ≠ .panic) (ha : a ∈ actions sys st) : step sys st a ≠ .panic := by
+  rw [step_eq_specStep sys st a hwf]
+  have hen := (C06_actions_complete sys st hn a).1 ha
+  obtain ⟨hA, hT, hR, hC⟩ := hwf
+  have hcons : ∀ e, e ∈ st.net.iterDeliverable → (st.net.onDeliver e).isSome ∧ (st.net.onDrop e).isSome := by
+    intro e he
+    have hhd := (mem_iterDeliverable hn.1 e).1 he
+    cases hnet : st.net with
+    | dup _ _ => simp [Net.onDeliver, Net.onDrop]
+    | nondup ms =>
+      rw [hnet] at hhd
+      obtain ⟨c, hc⟩ := hhd
+      have hcan := hn.1
+      rw [hnet] at hcan
+      have hpos := hcan.1 _ (alookup_mem hc)
+      have : c ≠ 0 := by simp at hpos; omega
+      simp only [Net.onDeliver, Net.onDrop, Net.removeOne, hc]
+      by_cases h1 : c = 1 <;> simp [this, h1]
+    | ord flows =>
+      rw [hnet] at hhd
+      obtain ⟨q, hq, hhq⟩ := hhd
+      obtain ⟨t, rfl⟩ := List.head?_eq_some_iff.1 hhq
+      simp only [Net.onDeliver, Net.onDrop, Net.removeOne, hq, List.idxOf?_cons, beq_self_eq_true, if_true]
+      split <;> simp
+  have hspec : ∀ (i : Nat) (ev : Event), i < sys.n → (consume st.net a).isSome →
+      (isDeliver a = true ∨ st.actors[i]? ≠ none) → specHandlerStep sys st a i ev ≠ .panic := by
+    intro i ev hi hcon _
+    obtain ⟨s, hs⟩ := getElem?_of_lt (l := st.actors) (i := i) (by omega)
+    obtain ⟨ts, h1⟩ := getElem?_of_lt (l := st.timers) (i := i) (by omega)
+    obtain ⟨m, h2⟩ := getElem?_of_lt (l := st.random) (i := i) (by omega)
+    obtain ⟨net, hnet⟩ := Option.isSome_iff_exists.1 hcon
+    unfold specHandlerStep
+    rw [hs]
+    simp only
+    split
+    · simp
+    · cases hr : handler sys i s ev with
+      | panic => exact absurd hr (hh i s ev)
+      | ok ns cmds =>
+        simp only
+        split
+        · simp
+        · simp [specNext, hnet, h1, h2, ofOption]
+  cases a with
+  | deliver e =>
+    obtain ⟨he, hlt⟩ := hen
+    simp only [specStep, eventOf]
+    exact hspec e.dst _ hlt (by simpa [consume] using (hcons e he).1) (Or.inl rfl)
+  | drop e =>
+    obtain ⟨_, he⟩ := hen
+    simp only [specStep]
+    obtain ⟨net, hnet⟩ := Option.isSome_iff_exists.1 (hcons e he).2
+    simp [hnet]
+  | timeout i t =>
+    obtain ⟨ts, hts, _⟩ := hen
+    have hi : i < sys.n := by have := lt_length_of_getElem? hts; omega
+    simp only [specStep, eventOf]
+    exact hspec i _ hi (by simp [consume]) (Or.inr (by
+      obtain ⟨s, hs⟩ := getElem?_of_lt (l := st.actors) (i := i) (by omega)
+      simp [hs]))
+  | crash i =>
+    obtain ⟨_, hi⟩ := hen
+    have hi : i < sys.n := by have := lt_length_of_getElem? hi; omega
+    simp [specStep, hi]
+  | selectRandom i k r =>
+    obtain ⟨m, cs, hm, _, _⟩ := hen
+    have hi : i < sys.n := by have := lt_length_of_getElem? hm; omega
+    simp only [specStep, eventOf]
+    exact hspec i _ hi (by simp [consume]) (Or.inr (by
+      obtain ⟨s, hs⟩ := getElem?_of_lt (l := st.actors) (i := i) (by omega)
+      simp [hs]))
+
+/-! ## the hypotheses are satisfiable: a concrete two-actor system using every command kind -/
+
+/-- actor 0 answers message 1 from actor 1 in state 5 by moving to state 6, sending two messages, setting and
+cancelling timers and opening a choice -/
+def exActor : Actor Nat where
+  start _ := (5, [.send 1 9, .setTimer 2])
+  msg _ s src m := if s = 5 ∧ src = 1 ∧ m = 1 then
+      .ok (some 6) [.send 1 7, .setTimer 3, .cancelTimer 2, .send 1 8, .chooseRandom 0 [4, 5]] else .ok none []
+  timeout _ _ _ := .ok none []
+  random _ _ _ := .ok none []
+
+def exSys : ActorSys Nat (List Nat) where
+  n := 2
+  actor _ := exActor
+  lossy := true
+  maxCrashes := 1
+  initNet := Net.ord []
+  initHist := []
+  recordIn h e := some (h ++ [100 + e.msg])
+  recordOut h e := some (h ++ [200 + e.msg])
+
+def exSt : St Nat (List Nat) :=
+  { actors := [5, 5], net := Net.ord [((1, 0), [1])], timers := [[2], []], random := [[], []],
+    crashed := [false, false], hist := [] }
+
+example : exSt.WF exSys := ⟨rfl, rfl, rfl, rfl⟩
+example : step exSys exSt (.deliver ⟨1, 0, 1⟩) = .next
+    { actors := [6, 5], net := Net.ord [((0, 1), [7, 8])], timers := [[3], []], random := [[(0, [4, 5])], []],
+      crashed := [false, false], hist := [101, 207, 208] } := by decide
+example : HandlerStep exSys exSt (.deliver ⟨1, 0, 1⟩)
+    { actors := [6, 5], net := Net.ord [((0, 1), [7, 8])], timers := [[3], []], random := [[(0, [4, 5])], []],
+      crashed := [false, false], hist := [101, 207, 208] } 0 (.msg 1 1) 5 (some 6)
+    [.send 1 7, .setTimer 3, .cancelTimer 2, .send 1 8, .chooseRandom 0 [4, 5]] :=
+  ⟨⟨rfl, rfl, rfl, rfl⟩, by decide, rfl, rfl, rfl⟩
+
 end SR.C06
